@@ -118,7 +118,7 @@ def coq_make(targets=None, timeout=1500):
     with BuildLock():
         coq_makefile()
         tg = ' '.join(targets) if targets else ''
-        cmd = f'timeout {timeout} make -j{NCPU} {tg}'
+        cmd = f'timeout {timeout} make -j{min(NCPU, 8)} {tg}'
         rc, o, e = sh(cmd, cwd=COQ, timeout=timeout + 30)
         return rc == 0, (o + e)
 
